@@ -362,6 +362,251 @@ func firstWord(s string) string {
 	return s
 }
 
+// ---- the filter header store under the same treatment: the writer is the
+// block manager's reorganisation of depth 1 across both stores (filter
+// rollback, block rollback, block append, filter append), the lookups are the
+// filter store's. GetCFilter takes the committed filter headers it verifies
+// against from FetchHeaderAncestors.
+
+type c01tFState struct {
+	blocks  []wire.BlockHeader
+	filters []chainhash.Hash // filters[i] belongs to blocks[i]
+}
+
+func (f *c01tFix) fstr(s c01tFState) string {
+	return fmt.Sprintf("blocks %s, filter headers up to height %d", f.chainStr(s.blocks), len(s.filters)-1)
+}
+
+func c01tFilterBody(f *c01tFix, nreaders int) func(c *verifeng.Chooser) {
+	type step struct {
+		name  string
+		run   func(st *stores, cur c01tFState) error
+		after func(cur c01tFState) c01tFState
+	}
+	type read struct {
+		name string
+		run  func(st *stores) string
+		ref  func(s c01tFState) string
+	}
+	fname := func(s c01tFState, h chainhash.Hash) string {
+		for i := range s.filters {
+			if s.filters[i] == h {
+				return "f(" + f.name(s.blocks[i].BlockHash()) + ")"
+			}
+		}
+		return "?" + h.String()[:6]
+	}
+	return func(c *verifeng.Chooser) {
+		env := verifhfs.NewEnv(c)
+		env.Quiet = true
+		env.MemFiles = true
+		defer env.Cleanup()
+		st, err := openStores(env)
+		if err != nil {
+			panic(verifeng.InfraError{Msg: "setup: " + err.Error()})
+		}
+		gf, _, err := st.f.ChainTip()
+		if err != nil {
+			panic(verifeng.InfraError{Msg: "setup: " + err.Error()})
+		}
+		init := c01tFState{blocks: append([]wire.BlockHeader{}, f.trunk[:4]...), filters: []chainhash.Hash{*gf}}
+		for i := 1; i < 4; i++ {
+			h := f.trunk[i]
+			if err := st.b.WriteHeaders(headerfs.BlockHeader{BlockHeader: &h, Height: uint32(i)}); err != nil {
+				panic(verifeng.InfraError{Msg: "setup: " + err.Error()})
+			}
+			fh := mkFilterHeader(&h, init.filters[i-1])
+			init.filters = append(init.filters, fh)
+			if err := st.f.WriteHeaders(headerfs.FilterHeader{HeaderHash: h.BlockHash(), FilterHash: fh, Height: uint32(i)}); err != nil {
+				panic(verifeng.InfraError{Msg: "setup: " + err.Error()})
+			}
+		}
+		x3 := f.alt3
+		fx3 := mkFilterHeader(&x3, init.filters[2])
+		// every name the filter headers can have
+		all := c01tFState{blocks: append(append([]wire.BlockHeader{}, init.blocks...), x3), filters: append(append([]chainhash.Hash{}, init.filters...), fx3)}
+		prog := []step{
+			{"F.RollbackLastBlock", func(st *stores, cur c01tFState) error {
+				nt := cur.blocks[len(cur.filters)-2].BlockHash()
+				_, err := st.f.RollbackLastBlock(&nt)
+				return err
+			}, func(cur c01tFState) c01tFState {
+				return c01tFState{cur.blocks, cur.filters[:len(cur.filters)-1]}
+			}},
+			{"B.RollbackLastBlock", func(st *stores, cur c01tFState) error { _, err := st.b.RollbackLastBlock(); return err },
+				func(cur c01tFState) c01tFState { return c01tFState{cur.blocks[:len(cur.blocks)-1], cur.filters} }},
+			{"B.Write(X3)", func(st *stores, cur c01tFState) error {
+				return st.b.WriteHeaders(headerfs.BlockHeader{BlockHeader: &x3, Height: 3})
+			}, func(cur c01tFState) c01tFState {
+				return c01tFState{append(append([]wire.BlockHeader{}, cur.blocks...), x3), cur.filters}
+			}},
+			{"F.Write(f(X3))", func(st *stores, cur c01tFState) error {
+				return st.f.WriteHeaders(headerfs.FilterHeader{HeaderHash: x3.BlockHash(), FilterHash: fx3, Height: 3})
+			}, func(cur c01tFState) c01tFState {
+				return c01tFState{cur.blocks, append(append([]chainhash.Hash{}, cur.filters...), fx3)}
+			}},
+		}
+		idx := func(s c01tFState, h chainhash.Hash) int {
+			for i := range s.blocks {
+				if s.blocks[i].BlockHash() == h {
+					return i
+				}
+			}
+			return -1
+		}
+		var reads []read
+		for _, target := range []wire.BlockHeader{f.trunk[3], f.trunk[2], x3} {
+			th := target.BlockHash()
+			reads = append(reads, read{"F.FetchHeader(" + f.name(th) + ")", func(st *stores) string {
+				h, err := st.f.FetchHeader(&th)
+				if err != nil {
+					return "not found"
+				}
+				return fname(all, *h)
+			}, func(s c01tFState) string {
+				i := idx(s, th)
+				if i < 0 || i >= len(s.filters) {
+					return "not found"
+				}
+				return fname(all, s.filters[i])
+			}}, read{"F.FetchHeaderAncestors(2," + f.name(th) + ")", func(st *stores) string {
+				hs, start, err := st.f.FetchHeaderAncestors(2, &th)
+				if err != nil {
+					return "not found"
+				}
+				var l []string
+				for _, h := range hs {
+					l = append(l, fname(all, h))
+				}
+				return fmt.Sprintf("%s from %d", strings.Join(l, ","), start)
+			}, func(s c01tFState) string {
+				i := idx(s, th)
+				if i < 2 || i >= len(s.filters) {
+					return "not found"
+				}
+				var l []string
+				for _, h := range s.filters[i-2 : i+1] {
+					l = append(l, fname(all, h))
+				}
+				return fmt.Sprintf("%s from %d", strings.Join(l, ","), i-2)
+			}})
+		}
+		reads = append(reads, read{"F.FetchHeaderByHeight(3)", func(st *stores) string {
+			h, err := st.f.FetchHeaderByHeight(3)
+			if err != nil {
+				return "not found"
+			}
+			return fname(all, *h)
+		}, func(s c01tFState) string {
+			if len(s.filters) <= 3 {
+				return "not found"
+			}
+			return fname(all, s.filters[3])
+		}}, read{"F.ChainTip", func(st *stores) string {
+			h, ht, err := st.f.ChainTip()
+			if err != nil {
+				return "error"
+			}
+			return fmt.Sprintf("%s@%d", fname(all, *h), ht)
+		}, func(s c01tFState) string {
+			return fmt.Sprintf("%s@%d", fname(all, s.filters[len(s.filters)-1]), len(s.filters)-1)
+		}})
+
+		var rprogs []read
+		for r := 0; r < nreaders; r++ {
+			rprogs = append(rprogs, reads[c.ChooseFree(len(reads), "lookup")])
+		}
+		s := verifeng.NewSched(c)
+		env.DB.OnBegin = func(bool) { s.Point("db.begin") }
+		env.OnRead = func() { s.Point("file.read") }
+		defer func() { env.DB.OnBegin = nil; env.OnRead = nil }()
+		states := []c01tFState{init}
+		since := []int{0}
+		started := []int{}
+		var werr error
+		s.Go("W", func() {
+			cur := init
+			for _, stp := range prog {
+				started = append(started, s.Tick())
+				if err := stp.run(st, cur); err != nil {
+					werr = fmt.Errorf("%s: %v", stp.name, err)
+					return
+				}
+				cur = stp.after(cur)
+				states = append(states, cur)
+				since = append(since, s.Tick())
+			}
+		})
+		type call struct {
+			r         read
+			call, ret int
+			res       string
+			done      bool
+		}
+		var calls []*call
+		for r, rd := range rprogs {
+			cl := &call{r: rd}
+			calls = append(calls, cl)
+			s.Go(fmt.Sprintf("R%d", r), func() {
+				cl.call = s.Tick()
+				cl.res = cl.r.run(st)
+				cl.ret = s.Tick()
+				cl.done = true
+			})
+		}
+		s.Run()
+		if strings.HasPrefix(s.Panic, "INFRA:") {
+			panic(verifeng.InfraError{Msg: s.Panic})
+		}
+		if s.Panic != "" {
+			c.Fail("panic", "panic:"+firstWord(s.Panic), "%s", s.Panic)
+			return
+		}
+		if s.Deadlock {
+			c.Fail("deadlock", "deadlock", "threads blocked for ever: %v", s.Blocked)
+			return
+		}
+		if werr != nil {
+			c.Fail("writer", "writer-error", "the writer failed: %v", werr)
+			return
+		}
+		for _, cl := range calls {
+			if !cl.done {
+				c.Fail("C01", "C01:lookup-never-returned", "%s never returned", cl.r.name)
+				return
+			}
+			c.Step("%s [%d,%d] -> %s", cl.r.name, cl.call, cl.ret, cl.res)
+			ok := false
+			var allowed []string
+			for i := range states {
+				end := 1 << 30
+				if i+1 < len(since) {
+					end = since[i+1]
+				}
+				begin := 0
+				if i > 0 {
+					begin = started[i-1]
+				}
+				if cl.ret < begin || cl.call > end {
+					continue
+				}
+				want := cl.r.ref(states[i])
+				allowed = append(allowed, fmt.Sprintf("%q (%s)", want, f.fstr(states[i])))
+				if want == cl.res {
+					ok = true
+				}
+			}
+			if !ok {
+				c.Fail("C01", "C01:concurrent-lookup-inconsistent:"+strings.Split(cl.r.name, "(")[0],
+					"%s, running while the writer reorganised both stores by one block, returned %q; in every state the stores were in during the call the answer is one of: %s",
+					cl.r.name, cl.res, strings.Join(allowed, "; "))
+				return
+			}
+		}
+		c.Obs("filter-reorg " + f.fstr(states[len(states)-1]))
+	}
+}
+
 func TestVFXC01T(t *testing.T) {
 	f := getC01TFix()
 	tier := verifeng.Tier()
@@ -378,7 +623,11 @@ func TestVFXC01T(t *testing.T) {
 		var name string
 		fmt.Sscanf(v.Config, "writer=%s readers=%d per=%d", &name, &nreaders, &per)
 		e := verifeng.FromEnv(v.Harness, v.Config)
-		_, x, err := e.ReplayFile(rp, c01tBody(f, name, nreaders, per))
+		body := c01tBody(f, name, nreaders, per)
+		if name == "filter-reorg" {
+			body = c01tFilterBody(f, nreaders)
+		}
+		_, x, err := e.ReplayFile(rp, body)
 		if err != nil {
 			t.Fatal(err)
 		}
@@ -397,5 +646,12 @@ func TestVFXC01T(t *testing.T) {
 		if err := verifeng.AppendResult(&e.Res); err != nil {
 			t.Fatal(err)
 		}
+	}
+	e := verifeng.FromEnv("C01T-concurrent-lookups", fmt.Sprintf("writer=filter-reorg readers=%d per=1", nreaders))
+	e.ShardDepth = 2
+	e.MaxViol = 12
+	e.Run(c01tFilterBody(f, nreaders))
+	if err := verifeng.AppendResult(&e.Res); err != nil {
+		t.Fatal(err)
 	}
 }
